@@ -30,7 +30,12 @@ than 256 / 1024 variables and level gaps of exactly 63/64/65, (iii) same-shaped 
 modulo 256, (iv) sparse, structurally unrelated but comparable pairs (task-pair blow-up), (v) counts with more than 53
 significant bits, (vi) padded partial valuations built cell by cell, (vii) near-keyword names (`True`, `FALSE`),
 (viii) fused ternary flips and multi-variable restrictions inside histories, (ix) limited / dry-run operators inside
-the concurrent op list.
+the concurrent op list; from the third, scale-focused wave (`*-w3-*`, 12 changes that need more than 65,536 nodes, machine-
+integer boundaries or huge counts; 7 caught by the first run): (x) BOTH operands large with a size product above 2^32,
+(xi) limits that do not fit 32 bits, (xii) an operand above 2^20 nodes (the ternary model engine needs about a minute and
+6 GB for it), (xiii) name lists of 65,536 and more names; and one FALSE ALARM was removed on the way: `TryFrom
+<BddPartialValuation>` succeeding where the model (like the pinned code) keeps trailing padding is now accepted when the
+conversion is an inverse (harmless/13 trims the padding and raises no alarm in any of the 20 checks).
 
 | seeded change | property | needs | caught | by |
 |---|---|---|---|---|
